@@ -152,6 +152,36 @@ func channels() string {
 	return s + fmt.Sprint(";", w, ok2, v3, ok3)
 }
 
+type queue struct {
+	mu    sync.Mutex
+	cond  *sync.Cond
+	vcond sync.Cond
+	items []int
+}
+
+func condDemo() string {
+	q := &queue{}
+	q.cond = sync.NewCond(&q.mu)
+	q.vcond.L = &q.mu
+	done := make(chan int)
+	go func() {
+		q.mu.Lock()
+		for len(q.items) == 0 {
+			q.cond.Wait()
+		}
+		v := q.items[0]
+		q.mu.Unlock()
+		done <- v
+	}()
+	q.mu.Lock()
+	q.items = append(q.items, 42)
+	q.cond.Signal()
+	q.cond.Broadcast()
+	q.vcond.Broadcast()
+	q.mu.Unlock()
+	return fmt.Sprint(<-done)
+}
+
 func clock() string {
 	t0 := time.Now()
 	time.Sleep(0)
@@ -180,6 +210,7 @@ func main() {
 	fmt.Println(control(7))
 	fmt.Println(channels())
 	fmt.Println(clock())
+	fmt.Println(condDemo())
 	close(func() chan int { c := make(chan int); return c }())
 	total := 0
 	for v := range seq {
